@@ -186,6 +186,11 @@ def main():  # noqa: PLR0912, PLR0915
             r = {"monitor": j[0], "error": "worker: " + (r.get("__crashed__") or r.get("__worker_error__")), "wall_s": 0.0}
         mon_results.append(r)
 
+    try:
+        with open(os.path.join(HERE, "baseline_obligations.json"), encoding="utf-8") as fd:
+            ledger_before = json.load(fd)
+    except (OSError, ValueError):
+        ledger_before = {}
     if a.rebaseline:
         path = os.path.join(HERE, "baseline_obligations.json")
         try:
@@ -212,10 +217,22 @@ def main():  # noqa: PLR0912, PLR0915
     contracts_report = []
 
     # ---- deductive part
+    attempted = []  # contracts that have never been fully discharged on the reference tree: reported, not counted
     for r in results:
+        solver_s += r["solver_s"]
+        if r["status"] not in ("proved", "error") and ledger_before.get(r["contract"], {}).get("status") != "proved":
+            # not a regression: this contract is an open proof attempt (slow string reasoning, an unmodelled
+            # construct).  It neither counts as proved nor makes the check fail; a counterexample that
+            # replays on the real code is still a violation.
+            attempted.append({"contract": r["contract"], "status": r["status"], "obligations": r["obligations"], "discharged": r["discharged"],
+                              "undecided": len(r["unknown"]), "refuted_without_replay": sum(1 for x in r["refuted"] if not x.get("replayed")), "note": (r["unsupported"] or "")[:200]})
+            for x in r["refuted"]:
+                if x.get("replayed"):
+                    path = write_replay(prop, r["contract"], x)
+                    violations.append((f"{r['contract']}: {x['obligation']}: {x['replayed']}"[:600], path, ""))
+            continue
         obligations += r["obligations"]
         discharged += r["discharged"]
-        solver_s += r["solver_s"]
         for f in r["functions"]:
             functions[f["function"]] = f
         assumed.update(r["assumed"])
@@ -318,6 +335,7 @@ def main():  # noqa: PLR0912, PLR0915
             "samples": samples[:8] or [{"note": "no samples"}],
             "undecided": undecided[:40],
             "contracts_only_in_thorough_tier": skipped,
+            "attempted_not_discharged_on_the_reference_tree": attempted,
             "known_findings": [f["id"] for f in open_findings],
         },
         "assumptions": sorted(assumed)
@@ -335,6 +353,8 @@ def main():  # noqa: PLR0912, PLR0915
         f"undecided={len(undecided)} bounded_monitors={len(bounded)} bounded_evals={sum(b['evaluations'] or 0 for b in bounded)} "
         f"violations={len(violations)} wall={wall:.1f}s"
     )
+    for t_ in attempted[:12]:
+        print(f"  ATTEMPTED (not counted) {t_['contract']}: {t_['status']}, {t_['discharged']}/{t_['obligations']} obligations discharged")
     for u in undecided[:20]:
         print("  UNDECIDED", u)
     for e in errors[:10]:
